@@ -157,7 +157,8 @@ class Node:
     """One full Bumble device with its host, tap and controller."""
 
     def __init__(self, world, index: int, *, delays=None, classic=False, geometry=None,
-                 le_features=None, extended_adv=None, device_kwargs=None, configure=None, direct=False):
+                 le_features=None, extended_adv=None, device_kwargs=None, configure=None, direct=False,
+                 stream=False):
         self.world = world
         self.index = index
         self.controller = Controller(f'C{index}', link=world.link, public_address=public_addr(index))
@@ -173,6 +174,20 @@ class Node:
         self.tap.sinks[H2C] = self.controller
         self.controller.set_packet_sink(self.tap.to_host)
         self.tap.sinks[C2H] = self.host
+        if stream:
+            # like every byte-stream transport (serial, tcp, pty, usb...): what the controller sends reaches the host
+            # through bumble.transport.common.PacketParser
+            from bumble.transport.common import PacketParser
+
+            parser = PacketParser(self.host)
+            self.parser = parser
+
+            class _Stream:
+                @staticmethod
+                def on_packet(packet):
+                    parser.feed_data(bytes(packet))
+
+            self.tap.sinks[C2H] = _Stream()
         self.device = Device(
             name=f'D{index}',
             address=hci.Address(random_addr(index)),
@@ -201,7 +216,7 @@ class Node:
 
 class World:
     def __init__(self, n: int = 2, *, delays=None, classic=False, geometry=None, link_order=None,
-                 device_kwargs=None, configure=None, le_features=None, direct=False):
+                 device_kwargs=None, configure=None, le_features=None, direct=False, stream=False):
         self.link = OrderedLink(link_order)
         self.nodes: list[Node] = []
         for i in range(n):
@@ -210,7 +225,7 @@ class World:
             self.nodes.append(
                 Node(self, i, delays=d, classic=classic, geometry=g, device_kwargs=device_kwargs,
                      configure=configure, le_features=le_features,
-                     direct=direct[i] if isinstance(direct, (list, tuple)) else direct)
+                     direct=direct[i] if isinstance(direct, (list, tuple)) else direct, stream=stream)
             )
 
     def __getitem__(self, i) -> Node:
